@@ -91,7 +91,7 @@ fn systems(rng: &mut Rng) -> Vec<Sys> {
 }
 
 pub fn run(m: &mut Monitor, cfg: &Config) {
-    let n = cfg.tier.pick(400, 3000);
+    let n = cfg.tier.pick(400, 12_000);
     let idx: Vec<u64> = (0..n).collect();
     par_cases(m, &idx, |m, _, &i| {
         let mut rng = Rng::derive(cfg.seed, "c05-hetero", i);
